@@ -185,6 +185,42 @@ def explore(ctx):
         ctx.count(f'{prof}:N={sc["cfg"].get("N", 2)}')
         if faults and o.accepted:
             ctx.nontriv(repr((sc['files'], sc['passes'], sc['rules'], sc['cfg'], sc['sched'])))
+    # several hanging candidates harvested by ONE poll, crossing MAX_TIMEOUTS in the middle of it: the limit holds per
+    # timeout, not per poll (one round: no candidate succeeds, so at most MAX_TIMEOUTS are ever reported)
+    for nn in (3, 4, 6):
+        for maxto in (1, 2, 3):
+            for sched in ([1] * 80, [0, 0, 1, 1, 1] * 16, [rnd.choice([1, 3, 5, 0]) for _ in range(80)]):
+                sc = {'files': [('f0.c', 'abcdefghij')], 'rules': [([('lenge', 0, 10)], 0), ([], 'timeout')],
+                      'passes': [{'key': 1, 'ops': [('del', i) for i in range(10)], 'aos': 0, 'maxt': None, 'newfix': None}],
+                      'cfg': {'N': nn, 'maxto': maxto, 'no_cache': True}, 'sched': sched}
+                o = driver.run_scenario(sc, ctx.tmp)
+                ctx.evaluations += 1
+                ctx.count('timeouts-harvested-in-one-poll')
+                if o.diverged:
+                    continue
+                ps = o.passes[0]
+                if ps['extra'] > maxto:
+                    ctx.violation('timeouts-unbounded', f'{ps["extra"]} timeouts were reported in one round with MAX_TIMEOUTS={maxto} (N={nn}, all candidates hang, '
+                                  f'several finish within one poll)', {'scenario': sc, 'kind': 'shim'})
+                each.append((driver.coq_scenario(sc, o.perm), o.out, sc))
+    # a helper that fails for every candidate while pass bugs are silenced (--shaddap): the round still ends at the give-up limit
+    for silent in (True, False):
+        for g in (2, 4):
+            for nn in (1, 3):
+                sc = {'files': [('f0.c', 'abc')], 'rules': [([], 0)],
+                      'passes': [{'key': 1, 'ops': [('err',)] * (g + nn + 12), 'aos': 0, 'maxt': None, 'newfix': None}],
+                      'cfg': {'N': nn, 'giveup': g, 'silent': silent, 'no_cache': True}, 'sched': [rnd.randint(0, 7) for _ in range(40)]}
+                o = driver.run_scenario(sc, ctx.tmp)
+                ctx.evaluations += 1
+                ctx.count('every-candidate-is-a-helper-error')
+                if o.diverged:
+                    ctx.violation('wedged', 'a pass whose helper fails for every candidate did not finish', {'scenario': sc, 'kind': 'shim'})
+                    continue
+                ps = o.passes[0]
+                if ps['executed'] > g + nn + 1:
+                    ctx.violation('give-up-skipped', f'{ps["executed"]} candidates were started although every one ended in a helper error '
+                                  f'(shaddap={silent}, give-up limit {g}, N={nn}: at most {g + nn + 1})', {'scenario': sc, 'kind': 'shim'})
+                each.append((driver.coq_scenario(sc, o.perm), o.out, sc))
     ctx.sample({'scenario': {k: each[1][2][k] for k in ('files', 'passes', 'rules', 'cfg', 'sched')}, 'impl_output': each[1][1][:40]})
     correspond(ctx, 'c09', each)
     for tag, sc in (REAL_SCENARIOS if not ctx.quick() else REAL_SCENARIOS[:3]):
